@@ -51,6 +51,8 @@ def qtriple(p, i, s):
 
 
 def run(res, tier, seed):
+    import l1b as _l1b
+    _l1b.AUTO_NOISE = 7919 * seed + 13      # random bytes in every record field the spec writer does not set
     rng = common.rng_for(seed, PROP)
     plans = [("gac_klm", "noaa18", 14, 3), ("gac_pod", "noaa11", 14, 3), ("lac_klm", "metopb", 6, 1), ("lac_pod", "noaa14", 6, 1)]
     if tier == "thorough":
